@@ -113,19 +113,6 @@ theorem posOff_eq_offOf (ty dr dc : Int) (h0 : ty ≠ 0) : posOff ty dr dc = off
 
 /-! ### execution of the templates -/
 
-theorem setS_apply {α} (env : String → α) (v w : String) (x : α) : setS env v x w = if w = v then x else env w := rfl
-
-theorem setS_comm {α} (env : String → α) (v w : String) (x y : α) (h : v ≠ w) :
-    setS (setS env v x) w y = setS (setS env w y) v x := by
-  funext u; simp only [setS]; by_cases h1 : u = w <;> by_cases h2 : u = v <;> simp [h1, h2]
-  · exact absurd (h2.symm.trans h1) h
-  · intro e; exact absurd e.symm h
-  · intro e; exact absurd e h
-
-/-- closes `setS (setS … ) … = setS (setS …) …` between environments that agree pointwise -/
-macro "env_eq" : tactic =>
-  `(tactic| (funext v; simp only [setS_apply]; repeat' split; all_goals simp_all))
-
 inductive Sgn3 (x : Int) : Prop
   | neg (h : x < 0) (h' : ¬ x = 0) (h'' : ¬ 0 < x)
   | zero (h : x = 0)
@@ -178,10 +165,6 @@ theorem rcChain_exec (k : TyK) (p : String) (s : State F) (fuel : Nat) (hs : s.c
   rcases sgn3 dr with ⟨a1, a2, a3⟩ | a1 | ⟨a1, a2, a3⟩ <;> rcases sgn3 dc with ⟨b1, b2, b3⟩ | b1 | ⟨b1, b2, b3⟩ <;>
   simp [rcChain, rcBr, rcSet, vR, vC, vVR, vVC, exec, hs, BE.ok, BE.eval, IE.ok, IE.eval, cmpInt, IOp.eval, setS_apply,
         offOf, offTable, her, hec, hvr, hvc, e1, e2, e3, e4, e5, e6, hT, hO, ← Int.sub_eq_add_neg, setS_comm _ _ _ _ _ hc, *]
-
-theorem exec_seq_eq (fuel : Nat) (a b : St) (s s' : State F) (h : exec fuel a s = s') (hr : s'.ctl = .run) :
-    exec fuel (.seq a b) s = exec fuel b s' := by
-  rw [ILVs.exec_seq_run _ _ _ _ (by rw [h]; exact hr), h]
 
 theorem TyVal.frame {k : TyK} {p : String} {s s' : State F} {ty : Int} (h : TyVal k p s ty)
     (hi : s'.ienv (p ++ "event_type") = s.ienv (p ++ "event_type"))
